@@ -39,8 +39,11 @@ def sh(cmd, cwd=None, timeout=1500):
         return 124, "timeout"
 
 
+SRC = "/tmp/mutw/src"  # a pristine worktree of the commit the sweep runs at: mutants are listed and applied from it
+
+
 def list_mutants(f):
-    rc, out = sh([GOMUT, "list", "/repo/" + f])
+    rc, out = sh([GOMUT, "list", SRC + "/" + f])
     ms = []
     for line in out.splitlines():
         parts = line.split("\t")
@@ -52,7 +55,7 @@ def list_mutants(f):
 def run_one(wt, m, tier):
     f = m["file"]
     sh(["git", "checkout", "-q", "--", "."], cwd=wt)
-    rc, src = sh([GOMUT, "apply", "/repo/" + f, str(m["idx"])])
+    rc, src = sh([GOMUT, "apply", SRC + "/" + f, str(m["idx"])])
     if rc != 0:
         return dict(m, status="gomut-error")
     with open(os.path.join(wt, f), "w") as fh:
@@ -116,6 +119,9 @@ def main():
     a = ap.parse_args()
     files = a.files.split(",") if a.files else list(FILEMAP)
     rnd = random.Random(a.seed)
+    os.makedirs("/tmp/mutw", exist_ok=True)
+    if not os.path.isdir(SRC):
+        sh(["git", "-C", "/repo", "worktree", "add", "-q", "--detach", SRC, "HEAD"])
     done = set()
     if os.path.exists(a.out):
         for l in open(a.out):
@@ -147,6 +153,7 @@ def main():
     queues = [todo[i::a.workers] for i in range(a.workers)]
     with mp.Pool(a.workers) as pool:
         pool.map(worker, [(i, queues[i], a.tier, a.out) for i in range(a.workers)])
+    sh(["git", "-C", "/repo", "worktree", "remove", "--force", SRC])
     for w in range(a.workers):
         wt = "/tmp/mutw/w%d" % w
         sh(["git", "-C", "/repo", "worktree", "remove", "--force", wt])
